@@ -137,6 +137,22 @@ pub(crate) fn verif_to_transport_addr(
     to_transport_addr(addr, &relay_addrs.0, &custom_addrs.0)
 }
 
+/// Verification hook (C19): [`MappedAddrs`] sharing the maps behind the hook wrappers.
+#[cfg(feature = "verif-hooks")]
+impl MappedAddrs {
+    pub(crate) fn verif_from_maps(
+        endpoint_addrs: &super::mapped_addrs::verif_c18::Map<EndpointId, EndpointIdMappedAddr>,
+        relay_addrs: &super::mapped_addrs::verif_c18::Map<(RelayUrl, EndpointId), RelayMappedAddr>,
+        custom_addrs: &super::mapped_addrs::verif_c18::Map<CustomAddr, CustomMappedAddr>,
+    ) -> Self {
+        Self {
+            endpoint_addrs: endpoint_addrs.0.clone(),
+            relay_addrs: relay_addrs.0.clone(),
+            custom_addrs: custom_addrs.0.clone(),
+        }
+    }
+}
+
 /// Stores the state required for starting and cleaning up the `RemoteStateActor`s.
 ///
 /// When this is dropped, this will abort all tasks.
